@@ -269,7 +269,7 @@ def shard_async(sh: Shard, seed, wseed, regime, nhist, nev):
 
 def main(tier, seed):
     run = Run("C05", tier, seed, "exploration")
-    nh, nev = (6, 25) if tier == "quick" else (40, 60)
+    nh, nev = (10, 30) if tier == "quick" else (160, 80)
     jobs = [{"seed": seed, "wseed": i, "regime": ["B", "J", "B", "H"][i % 4], "nhist": nh, "nev": nev} for i in range(NCPU)]
     run.absorb(run_shards("checks.c05", "shard_async", jobs, timeout=3000))
     try:
